@@ -422,6 +422,52 @@ example : ((nvQf.action (allCells 4 6) nvInfIn nvAreas 1).toOption.map (·.infos
 example : nearestOK nvInfIn nvAreas (allCells 4 6) nvDirs (11/8) (5/4) 1 .E = true ∧
     nearestOK nvInfIn nvAreas (allCells 4 6) nvDirs (11/8) (5/4) 1 .N = false := by decide +kernel
 
+/-! ### quarantine with NEGATIVE area ids at cells without infection (finding F30): the layout of
+    `nvAreas` with the nodata value -9999 in column 0. `hnn` of `C18_escape_iff` / `C18_nearest`
+    fails there; the hypotheses of the `_infected_nonneg` theorems hold. -/
+
+def nvAreasNeg : IRaster := ⟨4, 6, [-9999,2,2,2,5,5, -9999,2,2,2,5,5, -9999,2,2,2,5,5, -9999,0,0,0,5,5]⟩
+def nvQn : Quarantine := Quarantine.make nvAreasNeg (5/4) (11/8) 3 nvDirs
+
+theorem nv_C18_escape_iff_infected_nonneg :
+    QFrom nvQn nvAreasNeg 3 ∧ (∀ c ∈ allCells 4 6, InRange nvAreasNeg.rows nvAreasNeg.cols c) ∧
+    (∀ c ∈ allCells 4 6, nvInfIn.at c.1 c.2 ≠ 0 → 0 ≤ nvAreasNeg.at c.1 c.2) ∧
+    (∀ c ∈ allCells 4 6, nvInfOut.at c.1 c.2 ≠ 0 → 0 ≤ nvAreasNeg.at c.1 c.2) ∧
+    ¬ (∀ c ∈ allCells 4 6, 0 ≤ nvAreasNeg.at c.1 c.2) ∧ 1 < 3 :=
+  ⟨C18_qfrom_make _ _ _ _ _, fun _ hc => mem_allCells.mp hc, by decide, by decide, by decide, by decide⟩
+/-- not escaped, and escaped -/
+example := C18_escape_iff_infected_nonneg nvAreasNeg nvInfIn 3 nvQn nv_C18_escape_iff_infected_nonneg.1 (allCells 4 6)
+  nv_C18_escape_iff_infected_nonneg.2.1 nv_C18_escape_iff_infected_nonneg.2.2.1 1 nv_C18_escape_iff_infected_nonneg.2.2.2.2.2
+example := C18_escape_iff_infected_nonneg nvAreasNeg nvInfOut 3 nvQn nv_C18_escape_iff_infected_nonneg.1 (allCells 4 6)
+  nv_C18_escape_iff_infected_nonneg.2.1 nv_C18_escape_iff_infected_nonneg.2.2.2.1 1 nv_C18_escape_iff_infected_nonneg.2.2.2.2.2
+example : specEscapedFull nvInfIn nvAreasNeg (allCells 4 6) = false ∧ specEscapedFull nvInfOut nvAreasNeg (allCells 4 6) = true ∧
+    negativeIdAtInfected nvInfIn nvAreasNeg (allCells 4 6) = false ∧ negativeIdAtInfected nvInfOut nvAreasNeg (allCells 4 6) = false := by
+  decide
+
+theorem nv_C18_nearest_infected_nonneg :
+    QFrom nvQn nvAreasNeg 3 ∧ 0 ≤ nvQn.ns ∧ 0 ≤ nvQn.ew ∧
+    (nvAreasNeg.rows : Rat) * nvQn.ns < (dblMax : Rat) ∧ (nvAreasNeg.cols : Rat) * nvQn.ew < (dblMax : Rat) ∧
+    (∃ d, nvQn.dirs.enabled d = true) ∧
+    (∀ c ∈ allCells 4 6, InRange nvAreasNeg.rows nvAreasNeg.cols c) ∧
+    (∀ c ∈ allCells 4 6, nvInfIn.at c.1 c.2 ≠ 0 → 0 ≤ nvAreasNeg.at c.1 c.2) ∧
+    1 < 3 ∧ (¬ ∃ c ∈ allCells 4 6, nvInfIn.at c.1 c.2 ≠ 0 ∧ nvAreasNeg.at c.1 c.2 = 0) ∧
+    (∃ c ∈ allCells 4 6, nvInfIn.at c.1 c.2 ≠ 0) :=
+  ⟨C18_qfrom_make _ _ _ _ _, by decide +kernel, by decide +kernel, by decide +kernel, by decide +kernel, ⟨.E, rfl⟩,
+   fun _ hc => mem_allCells.mp hc, by decide, by decide, by decide, by decide⟩
+example :=
+  have h := nv_C18_nearest_infected_nonneg
+  C18_nearest_infected_nonneg nvAreasNeg nvInfIn 3 nvQn h.1 h.2.1 h.2.2.1 h.2.2.2.1 h.2.2.2.2.1 h.2.2.2.2.2.1
+    (allCells 4 6) h.2.2.2.2.2.2.1 h.2.2.2.2.2.2.2.1 1 h.2.2.2.2.2.2.2.2.1
+    h.2.2.2.2.2.2.2.2.2.1 h.2.2.2.2.2.2.2.2.2.2
+/-- the report is the one of the raster without the nodata column: (1, E) -/
+example : ((nvQn.action (allCells 4 6) nvInfIn nvAreasNeg 1).toOption.map (·.infos)) =
+    some [EscapeInfo.init, ⟨false, .val 1, .E⟩, EscapeInfo.init] := by decide +kernel
+
+/-- `C18_escape_full` is a `def ... : Prop` that is refuted (`C18_escape_full_fails`): its
+    quantifier domain is inhabited by the refuting instance itself, witness (a) of finding F30. -/
+example : QFrom f30Q f30Areas 1 ∧ (∀ c ∈ allCells 1 5, InRange f30Areas.rows f30Areas.cols c) ∧ 0 < 1 :=
+  ⟨C18_qfrom_make _ _ _ _ _, fun _ hc => mem_allCells.mp hc, by decide⟩
+
 /-! ### sum and area -/
 
 theorem nv_C18_sum_area :
@@ -806,6 +852,27 @@ example := (C19_elementwise_heap (nvAt 11) (nvAt 12) (nv_inv_at 11 rfl)).2.2.1 6
 example := (C19_elementwise_heap (nvAt 10) (nvAt 11) (nv_inv_at 10 rfl)).2.2.2 2 5 (· + ·) rfl rfl
 example := (C19_elementwise_heap (nvAt 10) (Heap.okOr ((nvAt 10).step (.zipInPlace 2 3 (· + ·)))) (nv_inv_at 10 rfl)).2.2.2
   2 3 (· + ·) rfl rfl
+
+/-! Finding F31. `C19_wrap_writes_through_full_fails` and `C19_wrap_writes_through_over_assignments_fails` are
+    refutations by a closed witness (no hypotheses). `C19_assign_into_wrapper_leaks`: in the state after
+    `Raster v0(array 0, 2, 3); Raster v1(2, 3, 7)` the assignment `v0 = v1` is in scope and in the region of F31;
+    the fresh buffer has id 3; a continuation that writes through `v0`, moves it to `v2` and destroys every
+    variable ends with buffer 3 allocated and without an owner; destroying `v0` at once leaves it unreachable. -/
+def nvF31 : Heap Int := Heap.okOr ((nvAt 2).step (.copyAssign 0 1))
+def nvF31Ops : List (HOp Int) := [.write 0 0 0 9, .moveCtor 2 0, .destroy 2, .destroy 0, .destroy 1]
+def nvF31End : Heap Int := Heap.okOr (nvF31.run nvF31Ops)
+def nvF31Destroyed : Heap Int := Heap.okOr (nvF31.step (.destroy 0))
+
+theorem nv_C19_assign_into_wrapper_leaks :
+    Inv (nvAt 2) ∧ (nvAt 2).f31Region (.copyAssign 0 1) = true ∧ (nvAt 2).inScope (.copyAssign 0 1) = true ∧
+    (nvAt 2).step (.copyAssign 0 1) = .ok nvF31 ∧ (nvAt 2).next = 3 ∧
+    nvF31.slots 0 = some ⟨2, 3, some 3, false⟩ ∧ nvF31.ext 0 = some [1, 2, 3, 4, 5, 6] ∧
+    (nvF31.run nvF31Ops = .ok nvF31End ∧ Live nvF31End 3 ∧ Unowned nvF31End 3 ∧ ∀ s, s < 7 → nvF31End.slots s = none) ∧
+    (nvF31.step (.destroy 0) = .ok nvF31Destroyed ∧ Live nvF31Destroyed 3 ∧ Unreachable nvF31Destroyed 3) :=
+  have t := C19_assign_into_wrapper_leaks (nvAt 2) nvF31 (nv_inv_at 2 rfl) 0 1 (by decide) rfl rfl
+  have t1 := t.2.2.2.2.1 nvF31Ops nvF31End rfl
+  have t2 := t.2.2.2.2.2 nvF31Destroyed rfl
+  ⟨nv_inv_at 2 rfl, by decide, rfl, rfl, rfl, by decide, by decide, ⟨rfl, t1.1, t1.2, by decide⟩, ⟨rfl, t2.1, t2.2⟩⟩
 
 end C19B
 
